@@ -7,6 +7,7 @@
 -/
 import GitAiModel.Lemmas.CliGit
 import GitAiModel.Lemmas.Alias
+import GitAiModel.Lemmas.AliasGit
 import GitAiModel.Base.Chars
 namespace GitAi.C18
 open GitAi GitAi.Cli GitAi.Alias GitAi.GitRef CliTables
@@ -207,17 +208,8 @@ theorem alias_tokens_vs_gitSplit (v : Str) (hs : isShell v = false) (ms : List (
 
 /-- … so whenever git's split yields no empty argument at all, the two agree exactly. -/
 theorem alias_tokens_eq_gitSplit (v : Str) (hs : isShell v = false) (ts : List Str)
-    (h : gitSplit v = .ok ts) (hne : [] ∉ ts) : tokens v = some ts := by
-  unfold gitSplit at h
-  cases hm : gitSplitM v with
-  | error e => rw [hm] at h; cases h
-  | ok ms =>
-    rw [hm] at h
-    cases h
-    rw [alias_tokens_vs_gitSplit v hs ms hm]
-    congr 1
-    refine startedOnly_of_no_empty ms ?_ hne
-    exact unstarted_empty v [] [] false .none false ms (fun m hm => by cases hm) (fun _ => rfl) hm
+    (h : gitSplit v = .ok ts) (hne : [] ∉ ts) : tokens v = some ts :=
+  tokens_eq_gitSplit v hs ts h hne
 
 /-- **`None` exactly for shell aliases and values git itself rejects inside a quote.** -/
 theorem alias_tokens_none_iff (v : Str) :
@@ -343,6 +335,53 @@ example : resolveO (lookupIn [(chars% "r", chars% "!git rev-parse")]) 2 [] (pars
 example : resolveO (lookupIn [(chars% "l", chars% "log 'x")]) 2 [] (parse [chars% "l"])
     = .unterminated (chars% "l") := by decide
 
+
+/-- **C18 alias expansion agrees with git's own (partial).**  Full statement: for every alias
+    table and invocation, `resolve … = some q → gitExpand … = .runs (toVec q)`.  Proved for
+    invocations in which git finds a command (`GitValid`) and alias tables whose names are not
+    git commands and whose values are `AliasClean` (git-ai and git agree on the shell test,
+    no unquoted trailing backslash, no empty argument, the expansion is itself a git command
+    line without the `gitOnly` spellings): then what git-ai hands to git is exactly the argv
+    git's own alias loop (`run_argv`/`handle_alias`: builtins first, `split_cmdline`, loop
+    detection) ends up executing.  Each excluded hypothesis has a witness: names of git
+    commands (`witness_alias_shadows_command`), trailing backslash, edge whitespace (above),
+    meta options inside the expansion (section 2). -/
+theorem alias_agrees_partial (lookup : Str → Option Str) (isCommand : Str → Bool)
+    (hclean : ∀ c v, lookup c = some v → isCommand c = false ∧ AliasClean v)
+    (fuel : Nat) (a : List Str) (ha : GitValid a) (q : Parsed)
+    (h : resolve lookup fuel (parse a) = some q) :
+    gitExpand lookup isCommand fuel [] a = .runs (toVec q) := by
+  unfold resolve at h
+  cases hr : resolveO lookup fuel [] (parse a) with
+  | final q' =>
+    rw [hr] at h
+    simp only [Option.some.injEq] at h
+    subst h
+    exact resolve_agrees lookup isCommand hclean fuel [] a ha q' hr
+  | cycle c => rw [hr] at h; cases h
+  | shell c => rw [hr] at h; cases h
+  | unterminated c => rw [hr] at h; cases h
+  | outOfFuel => rw [hr] at h; cases h
+
+/-- non-vacuity: `git -p --no-pager l -- f` with `alias.l = lg -5`, `alias.lg = log --oneline` -/
+example : GitValid [chars% "-p", chars% "--no-pager", chars% "l", chars% "--", chars% "f"] :=
+  ⟨⟨[chars% "-p", chars% "--no-pager"], chars% "l", [chars% "--", chars% "f"], by decide⟩, by decide⟩
+example : AliasClean (chars% "lg -5") := by
+  refine ⟨by decide, by decide, ?_⟩
+  intro ts hts
+  have : ts = [chars% "lg", chars% "-5"] := by
+    have h2 : gitSplit (chars% "lg -5") = .ok [chars% "lg", chars% "-5"] := by decide
+    rw [h2] at hts; cases hts; rfl
+  subst this
+  exact ⟨by decide, ⟨[], chars% "lg", [chars% "-5"], by decide⟩, by decide⟩
+example : (resolve (lookupIn [(chars% "l", chars% "lg -5"), (chars% "lg", chars% "log --oneline")]) 3
+      (parse [chars% "-p", chars% "--no-pager", chars% "l", chars% "--", chars% "f"])).map toVec
+    = some [chars% "-p", chars% "--no-pager", chars% "log", chars% "--oneline", chars% "-5", chars% "--", chars% "f"] ∧
+    gitExpand (lookupIn [(chars% "l", chars% "lg -5"), (chars% "lg", chars% "log --oneline")])
+      (fun c => c = chars% "log") 3 [] [chars% "-p", chars% "--no-pager", chars% "l", chars% "--", chars% "f"]
+    = .runs [chars% "-p", chars% "--no-pager", chars% "log", chars% "--oneline", chars% "-5", chars% "--", chars% "f"] := by
+  decide
+
 /-- witness (known finding): an alias named like a git command is expanded although git never
     consults it — `alias.status = log --oneline`, `git status` reaches git as `git log --oneline`;
     git's own loop (`gitExpand`, builtins win) runs `status`. -/
@@ -377,4 +416,5 @@ end GitAi.C18
 #print axioms GitAi.C18.resolve_none_iff
 #print axioms GitAi.C18.resolve_outcomes
 #print axioms GitAi.C18.alias_step_in_place
+#print axioms GitAi.C18.alias_agrees_partial
 #print axioms GitAi.C18.witness_alias_shadows_command
